@@ -130,23 +130,36 @@ Proof.
     intros H; inversion H; subst. simpl. apply key_eqb_eq in E. now rewrite Ep, E.
 Qed.
 
-Lemma cb_events_only c e : In e (cb_events c) -> e = CallbackAsked.
+(* the model's verdict is the specification's "the callback in force accepts (dialled host,
+   presented key)" *)
+Lemma cb_verdict_spec c o : cb_verdict c o = callback_accepts c o.
 Proof.
-  unfold cb_events. destruct (c_profile_cb c); [intros []|].
+  unfold cb_verdict, callback_accepts, callback_in_force, cb_host.
+  destruct (c_profile_cb c); [reflexivity|]. destruct (c_user_cb c); reflexivity.
+Qed.
+
+Lemma cb_events_only c o e : In e (cb_events c o) -> e = CallbackAsked HHost (o_server_key o).
+Proof.
+  unfold cb_events, cb_host. destruct (c_profile_cb c); [intros []|].
   destruct (c_user_cb c); [|intros []]. intros [<-|[]]. reflexivity.
 Qed.
 
+(* the caller's callback is invoked exactly when it is in force *)
+Lemma cb_events_asked c o :
+  c_profile_cb c = false -> c_user_cb c = true -> cb_events c o = [CallbackAsked HHost (o_server_key o)].
+Proof. unfold cb_events, cb_host. intros -> ->. reflexivity. Qed.
+
 Lemma hostkey_phase_events c o e :
-  In e (fst (hostkey_phase c o)) -> e = CallbackAsked \/ exists h, e = HostKeyAccepted h.
+  In e (fst (hostkey_phase c o)) -> e = CallbackAsked HHost (o_server_key o) \/ exists h, e = HostKeyAccepted h.
 Proof.
   unfold hostkey_phase. destruct (c_verify c); [|intros []].
   destruct (known_how c (o_server_key o)) as [h|].
   - simpl. intros [<-|[]]. right. now exists h.
   - destruct (cb_verdict c o); simpl.
     + intros Hi. apply in_app_or in Hi as [Hi|[<-|[]]].
-      * left. now apply (cb_events_only c).
+      * left. now apply (cb_events_only c o).
       * right. now exists ByCallback.
-    + intros Hi. left. now apply (cb_events_only c).
+    + intros Hi. left. now apply (cb_events_only c o).
 Qed.
 
 Lemma hostkey_phase_not_sensitive c o : none_of sensitive (fst (hostkey_phase c o)).
@@ -163,7 +176,7 @@ Proof.
   - destruct (cb_verdict c o) eqn:Ecb; simpl.
     + intros Hi. apply in_app_or in Hi as [Hi|[H|[]]].
       * apply cb_events_only in Hi. discriminate.
-      * inversion H; subst. simpl. exact Ecb.
+      * inversion H; subst. simpl. now rewrite <- cb_verdict_spec.
     + intros Hi. apply cb_events_only in Hi. discriminate.
 Qed.
 
@@ -200,7 +213,7 @@ Lemma hostkey_phase_unjustified c o :
   c_verify c = true -> unjustified c o -> snd (hostkey_phase c o) = false.
 Proof.
   intros Hv Hu. unfold hostkey_phase. rewrite Hv, (unjustified_known_how c o Hu).
-  destruct Hu as [-> _]. reflexivity.
+  rewrite cb_verdict_spec. destruct Hu as [-> _]. reflexivity.
 Qed.
 
 (* ------------------------------------------------------------------ _auth cascade *)
@@ -306,7 +319,7 @@ Inductive ssh_shape (c : ssh_cfg) (o : ssh_oracle) : trace * result -> Prop :=
 | sh_pin  : c_pin c = PinBad -> ssh_shape c o ([], Exn SSHError)
 | sh_kex  : c_pin c <> PinBad -> o_kex_ok o = false -> ssh_shape c o ([StartClient], Exn SSHError)
 | sh_host : c_pin c <> PinBad -> o_kex_ok o = true -> snd (hostkey_phase c o) = false ->
-            ssh_shape c o (StartClient :: fst (hostkey_phase c o), Exn SSHUnknownHost)
+            ssh_shape c o (StartClient :: fst (hostkey_phase c o), Exn (SSHUnknownHost HHost (o_server_key o)))
 | sh_auth : forall t2, c_pin c <> PinBad -> o_kex_ok o = true -> snd (hostkey_phase c o) = true ->
             run_auth (auth_plan c o) (o_loads o) (o_auths o) = (t2, false) ->
             ssh_shape c o (StartClient :: fst (hostkey_phase c o) ++ t2, Exn Authentication)
@@ -381,8 +394,8 @@ Qed.
 Lemma c15_reject : forall (c : ssh_cfg) (o : ssh_oracle),
   c_verify c = true -> unjustified c o ->
   none_of sensitive (fst (ssh_connect c o)) /\
-  (snd (ssh_connect c o) = Exn SSHUnknownHost \/ snd (ssh_connect c o) = Exn SSHError) /\
-  (c_pin c <> PinBad -> o_kex_ok o = true -> snd (ssh_connect c o) = Exn SSHUnknownHost).
+  (snd (ssh_connect c o) = Exn (SSHUnknownHost HHost (o_server_key o)) \/ snd (ssh_connect c o) = Exn SSHError) /\
+  (c_pin c <> PinBad -> o_kex_ok o = true -> snd (ssh_connect c o) = Exn (SSHUnknownHost HHost (o_server_key o))).
 Proof.
   intros c o Hv Hu. assert (Hf := hostkey_phase_unjustified c o Hv Hu).
   destruct (ssh_connect_shape c o) as [Hp|Hp Hk|Hp Hk Hh|t2 Hp Hk Hh Ha|t2 t3 r Hp Hk Hh Ha Hs]; simpl;
@@ -401,7 +414,7 @@ Lemma c15_auth_fail : forall (c : ssh_cfg) (o : ssh_oracle),
   none_of is_auth_ok (fst (ssh_connect c o)) /\
   (snd (ssh_connect c o) = Exn Authentication \/
    (none_of is_attempt (fst (ssh_connect c o)) /\
-    (snd (ssh_connect c o) = Exn SSHUnknownHost \/ snd (ssh_connect c o) = Exn SSHError))) /\
+    (snd (ssh_connect c o) = Exn (SSHUnknownHost HHost (o_server_key o)) \/ snd (ssh_connect c o) = Exn SSHError))) /\
   (c_pin c <> PinBad -> o_kex_ok o = true -> snd (hostkey_phase c o) = true ->
    snd (ssh_connect c o) = Exn Authentication).
 Proof.
@@ -544,4 +557,150 @@ Proof.
     + intros H. rewrite Hok in H. discriminate.
     + intros e Hi. apply in_app_or in Hi as [Hi|[<-|[]]]; [left | now right].
       apply Hpre, tls_setup_facts in Hi. now destruct Hi as [_ [Hi _]].
+Qed.
+
+(* ------------------------------------------------------------------ C15_callback_args *)
+(* the oracle with another caller's callback, everything else unchanged *)
+Definition with_cb (o : ssh_oracle) (f : hsel -> key -> bool) : ssh_oracle :=
+  {| o_kex_ok := o_kex_ok o; o_server_key := o_server_key o; o_cb := f; o_loads := o_loads o;
+     o_agent_keys := o_agent_keys o; o_default_keys := o_default_keys o; o_auths := o_auths o;
+     o_opens := o_opens o; o_subs := o_subs o; o_hello_ok := o_hello_ok o |}.
+
+Lemma run_subsystems_result fb names : forall opens subs hk,
+  snd (run_subsystems fb names opens subs hk) = Ok \/
+  snd (run_subsystems fb names opens subs hk) = Exn SSHError \/
+  snd (run_subsystems fb names opens subs hk) = Exn Other.
+Proof.
+  induction names as [|n rest IH]; intros opens subs hk; simpl; [auto|].
+  destruct (hd_or false opens); [|simpl; auto].
+  destruct (hd_or false subs).
+  - destruct hk; simpl; auto.
+  - destruct fb.
+    + destruct hk; simpl; auto.
+    + destruct (run_subsystems false rest (tl opens) (tl subs) hk) as [t r] eqn:E. simpl.
+      specialize (IH (tl opens) (tl subs) hk). now rewrite E in IH.
+Qed.
+
+(* an event that is neither StartClient nor sensitive can only come from the host-key block *)
+Lemma ssh_connect_phase_events c o e :
+  In e (fst (ssh_connect c o)) -> ~ sensitive e -> e <> StartClient -> In e (fst (hostkey_phase c o)).
+Proof.
+  intros Hi Hns Hne.
+  destruct (ssh_connect_shape c o) as [Hp|Hp Hk|Hp Hk Hh|t2 Hp Hk Hh Ha|t2 t3 r Hp Hk Hh Ha Hs]; simpl in Hi.
+  - contradiction.
+  - destruct Hi as [<-|[]]. now contradiction Hne.
+  - destruct Hi as [<-|Hi]; [now contradiction Hne | exact Hi].
+  - destruct Hi as [<-|Hi]; [now contradiction Hne|]. apply in_app_or in Hi as [Hi|Hi]; [exact Hi|].
+    exfalso. apply Hns, is_attempt_sensitive.
+    assert (Hx := run_auth_events (auth_plan c o) (o_loads o) (o_auths o) e). rewrite Ha in Hx. now apply Hx.
+  - destruct Hi as [<-|Hi]; [now contradiction Hne|]. apply in_app_or in Hi as [Hi|Hi]; [exact Hi|].
+    exfalso. apply Hns. apply in_app_or in Hi as [Hi|Hi].
+    + apply is_attempt_sensitive.
+      assert (Hx := run_auth_events (auth_plan c o) (o_loads o) (o_auths o) e). rewrite Ha in Hx. now apply Hx.
+    + apply session_event_sensitive.
+      assert (Hx := run_subsystems_events (c_exec_fallback c) (c_subsystems c) (o_opens o) (o_subs o) (o_hello_ok o) e).
+      rewrite Hs in Hx. now apply Hx.
+Qed.
+
+(* the caller's callback is invoked only in the configuration in which it is in force, and on
+   (dialled host, presented key) *)
+Lemma hostkey_phase_asked c o s k :
+  In (CallbackAsked s k) (fst (hostkey_phase c o)) ->
+  s = HHost /\ k = o_server_key o /\ c_verify c = true /\ c_user_cb c = true /\ c_profile_cb c = false /\
+  known_how c (o_server_key o) = None.
+Proof.
+  unfold hostkey_phase. destruct (c_verify c); [|intros []].
+  destruct (known_how c (o_server_key o)) as [h|]; [simpl; intros [H|[]]; discriminate|].
+  assert (G : In (CallbackAsked s k) (cb_events c o) ->
+              s = HHost /\ k = o_server_key o /\ true = true /\ c_user_cb c = true /\ c_profile_cb c = false /\
+              @None how = None).
+  { unfold cb_events, cb_host. destruct (c_profile_cb c); [intros []|].
+    destruct (c_user_cb c); [|intros []]. intros [H|[]]. inversion H. repeat split; reflexivity. }
+  destruct (cb_verdict c o); simpl; [|exact G].
+  intros Hi. apply in_app_or in Hi as [Hi|[H|[]]]; [now apply G | discriminate].
+Qed.
+
+(* acceptance on the authority of the caller's callback: it was asked, immediately before,
+   about exactly (dialled host, presented key), and its answer to exactly those was yes *)
+Lemma hostkey_phase_by_callback c o :
+  In (HostKeyAccepted ByCallback) (fst (hostkey_phase c o)) -> c_profile_cb c = false ->
+  c_user_cb c = true /\ o_cb o HHost (o_server_key o) = true /\
+  fst (hostkey_phase c o) = [CallbackAsked HHost (o_server_key o); HostKeyAccepted ByCallback].
+Proof.
+  unfold hostkey_phase. destruct (c_verify c); [|intros []].
+  destruct (known_how c (o_server_key o)) as [h|] eqn:E.
+  - simpl. intros [H|[]]. inversion H; subst. exfalso. exact (known_how_not_cb c _ E).
+  - intros Hi Hp. unfold cb_verdict, cb_events, cb_host in *. rewrite Hp in *.
+    destruct (c_user_cb c).
+    + destruct (o_cb o HHost (o_server_key o)) eqn:Ecb; simpl in *.
+      * repeat split; reflexivity.
+      * destruct Hi as [H|[]]. discriminate.
+    + simpl in Hi. contradiction.
+Qed.
+
+(* refusal while the caller's callback is in force: it was asked about exactly (dialled host,
+   presented key) and said no *)
+Lemma hostkey_phase_refused_by_callback c o :
+  c_verify c = true -> snd (hostkey_phase c o) = false -> c_profile_cb c = false -> c_user_cb c = true ->
+  fst (hostkey_phase c o) = [CallbackAsked HHost (o_server_key o)] /\ o_cb o HHost (o_server_key o) = false.
+Proof.
+  unfold hostkey_phase. intros -> Hs Hp Hu.
+  destruct (known_how c (o_server_key o)) as [h|]; [discriminate|].
+  unfold cb_verdict, cb_events, cb_host in *. rewrite Hp, Hu in *.
+  destruct (o_cb o HHost (o_server_key o)); simpl in *; [discriminate|]. split; reflexivity.
+Qed.
+
+Lemma unknown_host_result c o s k :
+  snd (ssh_connect c o) = Exn (SSHUnknownHost s k) ->
+  s = HHost /\ k = o_server_key o /\ c_pin c <> PinBad /\ o_kex_ok o = true /\
+  snd (hostkey_phase c o) = false /\ fst (ssh_connect c o) = StartClient :: fst (hostkey_phase c o).
+Proof.
+  destruct (ssh_connect_shape c o) as [Hp|Hp Hk|Hp Hk Hh|t2 Hp Hk Hh Ha|t2 t3 r Hp Hk Hh Ha Hs]; simpl;
+    try discriminate.
+  - intros H. inversion H. repeat split; auto.
+  - intros ->. exfalso.
+    destruct (run_subsystems_result (c_exec_fallback c) (c_subsystems c) (o_opens o) (o_subs o) (o_hello_ok o)) as [H|[H|H]];
+      rewrite Hs in H; discriminate.
+Qed.
+
+(* connect looks at the caller's callback at one point only *)
+Lemma ssh_connect_cb_ext c o f :
+  f HHost (o_server_key o) = o_cb o HHost (o_server_key o) -> ssh_connect c (with_cb o f) = ssh_connect c o.
+Proof.
+  intros Hf. unfold ssh_connect, hostkey_phase, cb_verdict, cb_events, cb_host, auth_plan, with_cb. simpl.
+  rewrite Hf. reflexivity.
+Qed.
+
+Lemma c15_callback_args : forall (c : ssh_cfg) (o : ssh_oracle),
+  (forall s k, In (CallbackAsked s k) (fst (ssh_connect c o)) ->
+     s = HHost /\ k = o_server_key o /\ c_verify c = true /\ c_user_cb c = true /\ c_profile_cb c = false) /\
+  (forall s k, snd (ssh_connect c o) = Exn (SSHUnknownHost s k) -> s = HHost /\ k = o_server_key o) /\
+  (c_profile_cb c = false -> In (HostKeyAccepted ByCallback) (fst (ssh_connect c o)) ->
+     c_user_cb c = true /\ o_cb o HHost (o_server_key o) = true /\
+     exists post, fst (ssh_connect c o)
+                  = StartClient :: CallbackAsked HHost (o_server_key o) :: HostKeyAccepted ByCallback :: post) /\
+  (c_verify c = true -> c_profile_cb c = false -> c_user_cb c = true ->
+   forall s k, snd (ssh_connect c o) = Exn (SSHUnknownHost s k) ->
+     o_cb o HHost (o_server_key o) = false /\
+     fst (ssh_connect c o) = [StartClient; CallbackAsked HHost (o_server_key o)]) /\
+  (forall f, f HHost (o_server_key o) = o_cb o HHost (o_server_key o) ->
+     ssh_connect c (with_cb o f) = ssh_connect c o).
+Proof.
+  intros c o. split; [|split; [|split; [|split]]].
+  - intros s k Hi. apply ssh_connect_phase_events in Hi; [|simpl; auto|discriminate].
+    apply hostkey_phase_asked in Hi. tauto.
+  - intros s k H. apply unknown_host_result in H. tauto.
+  - intros Hp Hi. assert (Hph := Hi). apply ssh_connect_phase_events in Hph; [|simpl; auto|discriminate].
+    destruct (hostkey_phase_by_callback c o Hph Hp) as [Hu [Hcb Hfst]].
+    split; [exact Hu|]. split; [exact Hcb|].
+    destruct (ssh_connect_shape c o) as [Hpb|Hpb Hk|Hpb Hk Hh|t2 Hpb Hk Hh Ha|t2 t3 r Hpb Hk Hh Ha Hs]; simpl in *.
+    + contradiction.
+    + destruct Hi as [H|[]]. discriminate.
+    + rewrite Hfst. now exists [].
+    + rewrite Hfst. now exists t2.
+    + rewrite Hfst. now exists (t2 ++ t3).
+  - intros Hv Hp Hu s k H. apply unknown_host_result in H as [_ [_ [_ [_ [Hs Hfst]]]]].
+    destruct (hostkey_phase_refused_by_callback c o Hv Hs Hp Hu) as [Hph Hcb].
+    split; [exact Hcb|]. now rewrite Hfst, Hph.
+  - intros f. apply ssh_connect_cb_ext.
 Qed.
